@@ -73,12 +73,39 @@ def part_parse(L, log):
         (r"^try_value$", c_try_value),
         (r"^HeaderError::invalid_name$|^HeaderError::invalid_value$|^&str as Into::into$", C.c_opaque),
     ] + c08.base_contracts()
+    # a name may be accepted because it EQUALS an already validated name (a reuse optimisation): sound only for a byte-exact
+    # comparison. http's `HeaderName == str` ignores ASCII case: two relations, identical => equal ignoring case.
+    identical = z3.Bool("name_identical_to_a_validated_name")
+    eq_ic = z3.Bool("name_equal_to_a_validated_name_ignoring_case")
+
+    def relation(term):
+        def f(ex, st, key, argv, dest_ty, raw):
+            def ap(ex, st, a):
+                st.world.setdefault("compared_with_validated_name", []).append(key)
+                return z3.Not(term) if key.endswith("::ne") else term
+            return [Case(None, ap)]
+        return f
+
+    def c_from_utf8(ex, st, key, argv, dest_ty, raw):
+        def ok(ex, st, a):
+            return ex.make_enum(dest_ty, "Ok", [a[0]])      # the same bytes, seen as &str
+        return [Case(None, ok), Case(z3.BoolVal(True), lambda ex, st, a: ex.make_enum(dest_ty, "Err", [Obj("core::str::Utf8Error")]))]
+    con = [
+        (r"HeaderName as PartialEq::(eq|ne)$", relation(eq_ic)),
+        (r"^\[u8\] as PartialEq::(eq|ne)$|^&\[u8\] as PartialEq::(eq|ne)$|^str as PartialEq::(eq|ne)$|^&str as PartialEq::(eq|ne)$", relation(identical)),
+        (r"^core::str::from_utf8$|^std::str::from_utf8$|^from_utf8$", c_from_utf8),
+        (r"^HeaderName::as_str$|^str::as_bytes$|^HeaderName as AsRef::as_ref$", C.c_identity),
+    ] + con
     ex = E.make_executor(L, [], con, max_unroll=2, max_paths=100000)
     st = State()
+    st.pc.append(z3.Implies(identical, eq_ic))
     name_sl = Obj("[u8]")
     st.world["name"] = Cell(name_sl)
     st.world["value"] = Cell(Obj("[u8]"))
-    E.call(ex, st, r"^headers::<impl[^>]*>::parse$", [Obj("N"), Obj("V")])
+    fn = ex.find_fn(r"^headers::<impl[^>]*>::parse$")
+    # further parameters a change may add (e.g. the previously validated name) are arbitrary values of their type
+    args = [Obj("N"), Obj("V")] + [Obj(ty) for _, ty in fn.args[2:]]
+    E.call(ex, st, r"^headers::<impl[^>]*>::parse$", args)
     outs = E.collect(ex, st)
     viols = []
     queries = 0
@@ -111,7 +138,17 @@ def part_parse(L, log):
             queries += 1
             if ex.feasible(s, b0 == 58):
                 viols.append({"key": "c12.parse.pseudo_name_accepted_as_regular_field", "what": "a name starting with ':' is accepted as a regular field", "model": {}})
-            if ("name", True) not in vals or ("value", True) not in vals or any(not okv for _, okv in vals):
+            reused = s.world.get("compared_with_validated_name")
+            if ("name", True) not in vals and reused:
+                queries += 1
+                if ex.feasible(s, z3.Not(identical)):
+                    viols.append({"key": "c12.parse.name_accepted_by_inexact_comparison",
+                                  "what": "a regular field name is accepted without validation because it compares equal to an already validated name, but the "
+                                          "comparison is not byte-exact (http's HeaderName == str ignores ASCII case): an upper-case spelling passes",
+                                  "model": {"comparison": reused}})
+                if ("value", True) not in vals:
+                    viols.append({"key": "c12.parse.regular_field_not_validated", "what": "a regular field is accepted without its value having passed the validator", "model": {"validators": vals}})
+            elif ("name", True) not in vals or ("value", True) not in vals or any(not okv for _, okv in vals):
                 viols.append({"key": "c12.parse.regular_field_not_validated",
                               "what": "a regular field is accepted without both its name and its value having passed the http validators", "model": {"validators": vals}})
         elif variant in PSEUDO:
@@ -538,6 +575,8 @@ def replay_args(v):
             name = ":x"
         elif k in ("c12.parse.regular_field_not_validated",):
             name = "Ab"
+        elif k == "c12.parse.name_accepted_by_inexact_comparison":
+            return ("c12_field_sequence", ["ab=x,Ab=y"])
         if name is None:
             return None
         return ("c12_field_gate", [name.encode("latin1").hex(), "78"])
